@@ -1,5 +1,26 @@
 /-
-C01 capstones, second part (HEADER REWRITTEN AT THE END)
+C01 capstones, second part (same namespace `TLX.Props.C01Capstone`; nothing of `Props/C01Capstone.lean` is restated).
+
+0. `tls12_connection_exact_of_release`, `tls13_connection_exact_of_release`: the capstones with the reassembly conclusion
+   ("the records released for each direction are the transcript's records") as hypothesis instead of a delivery model.
+1. Causality from the PACKET order. `FirstFlights info c recsA recsB`: `c.pkts = A ++ B ++ C`, `A` client packets only,
+   delivering (in order: cuts, duplicates, any ISN) the whole records `recsA`; `B` server packets only, delivering whole
+   records `recsB ≠ []`; `C` arbitrary — a flight's segments are captured, ending on a record boundary, before the next
+   flight's first segment. `causal12_of_packet_order` (`recsA ≠ []`, no CCS in it), `causal13_of_packet_order`
+   (`recsA = [ClientHello]`). `Ex2`: byte-level causality alone ("all ClientHello bytes before the first server
+   segment") is NOT enough when the segment completing the ClientHello carries the start of the next record.
+2. `tls12_connection_exact_displaced`, `tls13_connection_exact_displaced`: `DeliveredDisplaced` = per direction
+   `Delivers k isn` (segments displaced by up to k positions) ∧ `Props.C05.NoEarlyDelivery`.
+3. TLS 1.3 handshake messages fragmented across records (`Spec/TlsFragmented13`: `FEv.frag bytes fins`, `FragConform`).
+   `tls13_connection_exact_statement` (def, full RFC 8446 §5.1 strength), `Ex2.tls13_fragmented_counterexample : ¬ …`,
+   `tls13_fragmented_partial`: holds when every protected handshake record is in LOCKSTEP (`Lemmas/Capstone2.Lock`):
+   `seenFins bytes = fins`, where `walk` / `seenFins` say exactly what the loop of
+   `handle_decrypted_tls_13_handshake_record` looks at (`hs13Loop_walk`): it restarts at offset 0 of every record's
+   plaintext and hops (type, uint24 length) pairs, so it counts a Finished iff the Finished's first byte is reached by
+   hopping from THIS record's first byte — whole-message records are in lockstep (`seenFins_whole`); a record that
+   starts inside a message is walked from garbage.
+4. `tls12_connection_meta_exact`, `tls13_connection_meta_exact`: the export with `-a` (`metaStream12`, `metaStream13`).
+Non-vacuity: `Ex2.*_instance` discharge every hypothesis for concrete connections.
 -/
 import TLX.Lemmas.Capstone2
 set_option linter.unusedSimpArgs false
@@ -864,6 +885,108 @@ theorem tls12_displaced_instance :
   have e : (Spec.TlsConnection.plainOf t0.cEvs, Spec.TlsConnection.plainOf t0.sEvs) = (hi, k16) := by decide
   rw [e] at h
   exact h
+
+-- ---------------------------------------------------------------------- 4. the `-a` theorems, concretely
+theorem causal0m : Causal13 (connRecs infoCap (setMeta connCap true)) :=
+  ⟨(connRecs infoCap connCap).headD (⟨[], []⟩, false), ((connRecs infoCap connCap).drop 1).headD (⟨[], []⟩, false),
+    (connRecs infoCap connCap).drop 2, by decide +kernel, by decide +kernel, by decide +kernel⟩
+
+/-- every hypothesis of `tls12_connection_meta_exact` holds for the connection of `Ex.tls12_instance` exported with `-a` -/
+theorem tls12_meta_instance :
+    ∃ frames, Pipeline.connOut hashes Cipher.Toy.prims infoCap (setMeta connCap true) kl0
+        = some (frames.map (Pipeline.addressed (setMeta connCap true).opts (setMeta connCap true))) ∧
+      Spec.reassemble frames = some
+        (t0.chRecord ++ metaStream12 Cipher.Toy.prims Cipher.Toy.laws cls0 t0.ver (legacySnd k0).c t0.cEvs,
+         t0.shRecord ++ metaStream12 Cipher.Toy.prims Cipher.Toy.laws cls0 t0.ver (legacySnd k0).s t0.sEvs) ∧
+      TimesFromCarriers infoCap (setMeta connCap true) frames := by
+  have hres : CipherSuite.resolve (Bytes.beNat t0.sh.cipherSuite) = some ps0 := by decide +kernel
+  have hargs : Pipeline.suiteArgs ps0 = some a0 := some_getD _ _ (by decide +kernel)
+  have hfound : (Keylog.findSessionSecrets kl0 (Pipeline.natsOfBytes t0.ch.random)).filter
+      (fun k => k.label == Keylog.s_CLIENT_RANDOM || k.label == Keylog.s_RSA) = f0 :: [] := by decide +kernel
+  have hsec : Pipeline.secretsOf false (f0 :: []) = some secrets0 := by decide +kernel
+  have hgen : KeySchedule.generateKeys hashes (Pipeline.ksVersion .tls12) a0.ks secrets0 t0.ch.random t0.sh.random
+      = .ok (some (.legacy k0)) :=
+    gen_eq (KeySchedule.generateKeys hashes .tls12 a0.ks secrets0 cr0 sr0) k0 (by decide +kernel)
+  have hcls : classOf a0.bulk (Pipeline.rlVersion .tls12)
+      (Session.extGet ((t0.sh.extensions.getD []).map extPair) [0x00, 0x16]).isSome a0.tagLen = some cls0 := by
+    decide +kernel
+  have hmac : 0 < (KeySchedule.macSuite hashes a0.ks.mac).outLen := by decide +kernel
+  have hck : KeyMatOk cls0 k0.clientKey k0.clientIv := by decide +kernel
+  have hsk : KeyMatOk cls0 k0.serverKey k0.serverIv := by decide +kernel
+  have hokc : ∀ e ∈ t0.cEvs, EvOk1 cls0 (KeySchedule.macSuite hashes a0.ks.mac).outLen e := by decide +kernel
+  have hoks : ∀ e ∈ t0.sEvs, EvOk1 cls0 (KeySchedule.macSuite hashes a0.ks.mac).outLen e := by decide +kernel
+  have hwr : ∀ d, ∀ r ∈ t0.records Cipher.Toy.prims Cipher.Toy.laws cls0 (legacySnd k0) d, WholeRecord r := by
+    intro d; cases d <;> decide +kernel
+  have hlen : t0.cEvs.length + t0.sEvs.length ≤ seqLimit := by decide +kernel
+  have hsc : Script12 t0.cEvs := ⟨[[16, 0, 0, 2, 9, 9]], _, rfl, by decide, by
+    intro e he
+    simp only [List.mem_cons, List.mem_nil_iff, or_false] at he
+    rcases he with rfl | rfl | rfl <;> exact ⟨_, _, _, rfl, by decide⟩⟩
+  have hss : Script12 t0.sEvs := ⟨[[11, 0, 0, 3, 1, 2, 3, 14, 0, 0, 0]], _, rfl, by decide, by
+    intro e he
+    simp only [List.mem_cons, List.mem_nil_iff, or_false] at he
+    rcases he with rfl | rfl <;> exact ⟨_, _, _, rfl, by decide⟩⟩
+  exact tls12_connection_meta_exact hashes Cipher.Toy.prims Cipher.Toy.laws kl0 infoCap (setMeta connCap true) rfl t0
+    (by decide) (by decide) rfl rfl rfl rfl .tls12 (by decide) (by unfold Negotiated; decide)
+    ps0 hres a0 hargs f0 [] hfound secrets0 hsec k0 hgen cls0 hcls hmac hck hsk hsc hss hokc hoks hwr hlen
+    delivered0 causal0m
+
+-- the client's exported stream with `-a`: ClientHello record, ClientKeyExchange record, CCS record, the decrypted
+-- Finished followed by its record, "hi", (the empty record contributes nothing)
+example : t0.chRecord ++ metaStream12 Cipher.Toy.prims Cipher.Toy.laws cls0 t0.ver (legacySnd k0).c t0.cEvs
+    = rC 0 ++ rC 1 ++ rC 2 ++ ((20 :: 0 :: 0 :: 12 :: k16.take 12) ++ rC 3) ++ hi := by decide +kernel
+
+/-- every hypothesis of `tls13_connection_meta_exact` holds for the connection of `Ex.tls13_instance` exported with `-a` -/
+theorem tls13_meta_instance :
+    ∃ frames, Pipeline.connOut hashes Cipher.Toy.prims info13 (setMeta conn13 true) kl13
+        = some (frames.map (Pipeline.addressed (setMeta conn13 true).opts (setMeta conn13 true))) ∧
+      Spec.reassemble frames = some
+        (t13.chRecord ++ metaStream13 Cipher.Toy.prims Cipher.Toy.laws cls13 t13.ver x13.c t13.cEvs,
+         t13.shRecord ++ metaStream13 Cipher.Toy.prims Cipher.Toy.laws cls13 t13.ver x13.s t13.sEvs) ∧
+      TimesFromCarriers info13 (setMeta conn13 true) frames := by
+  have hres : CipherSuite.resolve (Bytes.beNat t13.sh.cipherSuite) = some ps13 := by decide +kernel
+  have hargs : Pipeline.suiteArgs ps13 = some a13 := some_getD _ _ (by decide +kernel)
+  have hfound : Keylog.findSessionSecrets kl13 (Pipeline.natsOfBytes t13.ch.random)
+      = kl13.headD ⟨[], [], []⟩ :: kl13.tail := by decide +kernel
+  have hsec : Pipeline.secretsOf true (kl13.headD ⟨[], [], []⟩ :: kl13.tail) = some secrets13 := by decide +kernel
+  have hgen : KeySchedule.generateKeys hashes .tls13 a13.ks secrets13 t13.ch.random t13.sh.random
+      = .ok (some (.tls13 k13)) :=
+    gen_eq13 (KeySchedule.generateKeys hashes .tls13 a13.ks secrets13 cr0 sr0) k13 (by decide +kernel)
+  have hcls : classOf a13.bulk .tls13
+      (Session.extGet ((t13.sh.extensions.getD []).map extPair) [0x00, 0x16]).isSome a13.tagLen = some cls13 := by
+    decide +kernel
+  have hokc : ∀ e ∈ t13.cEvs, EvOk1 cls13 (KeySchedule.macSuite hashes a13.ks.mac).outLen e := by decide +kernel
+  have hoks : ∀ e ∈ t13.sEvs, EvOk1 cls13 (KeySchedule.macSuite hashes a13.ks.mac).outLen e := by decide +kernel
+  have hwr : ∀ d, ∀ r ∈ t13.records Cipher.Toy.prims Cipher.Toy.laws cls13 x13 d, WholeRecord r := by
+    intro d; cases d <;> decide +kernel
+  have hlen : budget13 t13 ≤ seqLimit := by decide +kernel
+  have hsc : Script13 t13.cEvs := by
+    intro e he
+    simp only [t13, List.mem_cons, List.mem_nil_iff, or_false] at he
+    rcases he with rfl | rfl | rfl
+    · exact Or.inl rfl
+    · exact Or.inr (Or.inl ⟨_, _, rfl⟩)
+    · exact Or.inr (Or.inr ⟨_, _, rfl⟩)
+  have hss : Script13 t13.sEvs := by
+    intro e he
+    simp only [t13, List.mem_cons, List.mem_nil_iff, or_false] at he
+    rcases he with rfl | rfl | rfl | rfl
+    · exact Or.inl rfl
+    · exact Or.inr (Or.inl ⟨_, _, rfl⟩)
+    · exact Or.inr (Or.inl ⟨_, _, rfl⟩)
+    · exact Or.inr (Or.inr ⟨_, _, rfl⟩)
+  exact tls13_connection_meta_exact hashes Cipher.Toy.prims Cipher.Toy.laws kl13 info13 (setMeta conn13 true) rfl t13
+    (by decide) (by decide) rfl rfl rfl rfl (by unfold Negotiated; decide)
+    ps13 hres a13 hargs _ _ hfound secrets13 hsec k13 hgen
+    (k13.clientHsKey.getD []) (k13.clientHsIv.getD []) (k13.clientAppKey.getD []) (k13.clientAppIv.getD [])
+    (k13.serverHsKey.getD []) (k13.serverHsIv.getD []) (k13.serverAppKey.getD []) (k13.serverAppIv.getD [])
+    (by decide +kernel) cls13 hcls (by decide +kernel) (by decide +kernel) (by decide +kernel) (by decide +kernel)
+    hsc hss hokc hoks hwr hlen delivered13 causal13
+
+-- the server's exported stream with `-a`: ServerHello record, the dummy CCS record, 16 bytes — nothing of the flight
+-- or the ticket
+example : t13.shRecord ++ metaStream13 Cipher.Toy.prims Cipher.Toy.laws cls13 t13.ver x13.s t13.sEvs
+    = qS 0 ++ qS 1 ++ k16 := by decide +kernel
 
 -- ---------------------------------------------------------------------- 3. fragmented TLS 1.3 flights
 /-- the server's handshake messages: EncryptedExtensions, a Certificate whose body contains 00 ff ff ff, Finished -/
